@@ -118,6 +118,8 @@ def _alphabet() -> Dict[str, Dict[str, Any]]:
     op("and_mask_both", "and_mask_both", "(lambda mk: {h} * torch.logical_and(mk, other=mk).to({h}.dtype))({h} > 0)", lambda h, m, i: ((h,), {}))
     op("with_zeros", "with_zeros", "{h} * self.zmask{i}", lambda h, m, i: ((h, g(m, "zmask", i)), {}),
        ["self.register_buffer('zmask{i}', (torch.arange(D) % 3 != 0).float())"])
+    op("with_zeros_np", "with_zeros", "{h} * self.znp{i}", lambda h, m, i: ((h, g(m, "znp", i)), {}),
+       ["self.register_buffer('znp{i}', (torch.arange(D) % 3 != 0).float(), persistent=False)"])  # a derived constant, not in state_dict
     # ---- adds
     op("add_scalar", "add", "{h} + 1.5", lambda h, m, i: ((h, 1.5), {}))
     op("add_scalar_left", "add", "0.5 + {h}", lambda h, m, i: ((0.5, h), {}))
